@@ -9,7 +9,7 @@ from props import e1
 
 PROP = "C06"
 DIR = None
-BASE = {"a.txt": b"A", "d": DIR, "d/b.txt": b"B", "e": DIR, "e/c.txt": b"C"}
+BASE = {"a.txt": b"A", "d": DIR, "d/b.txt": b"B", "e": DIR, "e/c.txt": b"C", "sp ace_\u00fc.v2 (R&D)+#1,'x'": DIR, "sp ace_\u00fc.v2 (R&D)+#1,'x'/s.txt": b"S"}
 
 
 def enabled(tree, meta):
@@ -28,7 +28,8 @@ def enabled(tree, meta):
     if meta["cmds"] < meta["max_cmds"]:
         m2 = dict(meta, cmds=meta["cmds"] + 1)
         cont = meta["cmds"] + 1 < meta["max_cmds"]
-        cands = [ops.create("", ["xxh64"]), ops.create("", ["c4", "md5"]), ops.create("d", ["md5"]), ops.create("e", ["xxh64"])]
+        cands = [ops.create("", ["xxh64"]), ops.create("", ["c4", "md5"]), ops.create("d", ["md5"]), ops.create("e", ["xxh64"]),
+                 ops.create("sp ace_\u00fc.v2 (R&D)+#1,'x'", ["md5"])]
         cands += [ops.create("", ["xxh64"], sf=[f]) for f in ("a.txt", "d/b.txt") if f in med]
         if meta.get("rich"):
             cands += [ops.create("", ["sha1"], n=True), ops.create("", ["xxh64"], sf=["d"]), ops.create("", ["md5"], dr=True)]
